@@ -84,7 +84,7 @@ CHECKS = {
    "The fate of indexes/foreign keys built on an excluded column is unspecified by the documentation and not judged; the CLI slice uses one fixed pair of schemas."),
  "C20": ("exploration",
    "stateless exploration with Go's map-iteration order turned into a harness-chosen environment answer (runtime overlay): deviation-bounded enumeration of iteration starts per call site, hash seeds per process, operation sequences and declaration-order permutations, all compared byte for byte with the default run",
-   "The check binary is linked against a Go runtime whose map-iteration start (per call site) and per-map hash seed are chosen by the harness. For 17 operations over the real planners/differs/codecs/formatters/directories the baseline output must be byte-identical under: every site shifted at once (14 values), one site at a time (bound 1; thorough: pairs of atlas sites, bound 2), worker processes with different hash seeds, and really random processes; planning the same change set twice in one process must give the same plan; every sequence of <=2 (thorough 3) operations must leave the last operation's output equal to its solo output in a fresh process; all permutations of top-level and index blocks (and reversed FK/check blocks) of an HCL source must give the same statements (as clause multisets) and the same SQLite catalogue. Every unordered pair of the 16 operations (and each with itself) is additionally run at the same time in a separate binary built with -race: outputs must equal the solo outputs and the race detector must stay silent. 10 real CLI commands (binary built with the same runtime) x hash seeds x iteration starts must print byte-identical output.",
+   "The check binary is linked against a Go runtime whose map-iteration start (per call site) and per-map hash seed are chosen by the harness. For 19 operations over the real planners/differs/codecs/formatters/directories (incl. the replay of two migration directories on one process-wide SQLite dev connection) the baseline output must be byte-identical under: every site shifted at once (14 values), one site at a time (bound 1; thorough: pairs of atlas sites, bound 2), worker processes with different hash seeds, and really random processes; planning the same change set twice in one process must give the same plan; every sequence of <=2 (thorough 3) operations must leave the last operation's output equal to its solo output in a fresh process; all permutations of top-level and index blocks (and reversed FK/check blocks) of an HCL source must give the same statements (as clause multisets) and the same SQLite catalogue. Every unordered pair of the operations (and each with itself) is additionally run at the same time in a separate binary built with -race: outputs must equal the solo outputs and the race detector must stay silent. 10 real CLI commands (binary built with the same runtime) x hash seeds x iteration starts must print byte-identical output.",
    "The operations have no synchronisation below operation granularity, so a controlled scheduler has nothing to interleave: unsynchronised sharing is decided by the free-running -race pass over all operation pairs (its interleavings are the ones that occurred, not an enumeration); the Go toolchain plus a one-function runtime patch is trusted."),
 }
 NOT_APPLICABLE = {}
